@@ -3,17 +3,18 @@ import GoPlugin.Model.Interop
 C14 — Host and plugin configurations interoperate exactly when compatible.
 
 The configuration matrix is finite: 54 host configurations (allowed-protocol
-list × transport security × multiplexing × launch method) × 8 plugin
-configurations (protocol × static TLS or not × advertises multiplexing).  The
-composition evaluates the byte-level models (`Serve.serveLine`, then
-`Handshake.start` — i.e. `TrimSpace`, `Split`, `Atoi`, the field checks — on the
-actual printed line) in the kernel for every one of the 432 cells.
+list × transport security × multiplexing × launch method) × 16 plugin
+configurations (protocol × static TLS or not × advertises multiplexing ×
+implements AutoMTLS or ignores it).  The composition evaluates the byte-level
+models (`Serve.serveLine`, then `Handshake.start` — i.e. `TrimSpace`, `Split`,
+`Atoi`, the field checks — on the actual printed line) in the kernel for every
+one of the 864 cells.
 -/
 namespace GoPlugin.Props.C14
 open GoPlugin Interop
 
 def pGood : Handshake.Params := ⟨true, true, 4, 50, 1, true⟩
-def iGood : Interop.Params := ⟨true, true⟩
+def iGood : Interop.Params := ⟨true, true, true, true, true⟩
 
 /-- **The whole matrix**: in every cell the composition of the plugin's printed line, the host's
 parse and the two transport-security modes gives exactly the verdict of the specification table. -/
@@ -26,8 +27,8 @@ theorem allHost_complete (hc : HostC) : hc ∈ allHost := by
   cases a <;> cases s <;> cases m <;> cases l <;> decide
 
 theorem allPlug_complete (pc : PlugC) : pc ∈ allPlug := by
-  obtain ⟨g, s, a⟩ := pc
-  cases g <;> cases s <;> cases a <;> decide
+  obtain ⟨g, s, a, n⟩ := pc
+  cases g <;> cases s <;> cases a <;> cases n <;> decide
 
 /-- … so the matrix theorem holds for EVERY configuration pair. -/
 theorem interop (hc : HostC) (pc : PlugC) : compose iGood pGood hc pc = expected hc pc :=
@@ -78,17 +79,200 @@ theorem reattach_mux_conflict (hc : HostC) (pc : PlugC) (hl : hc.launch = .reatt
 
 /-- if `NewClient`'s default were {netrpc, grpc}, a host that never opted in to gRPC would speak it -/
 theorem default_allowed_witness :
-    compose ⟨false, true⟩ pGood ⟨.dflt, .none, false, .cmd⟩ ⟨true, .none, true⟩ = .works ∧
-    expected ⟨.dflt, .none, false, .cmd⟩ ⟨true, .none, true⟩ = .startErr .protocol := by decide
+    compose ⟨false, true, true, true, true⟩ pGood ⟨.dflt, .none, false, .cmd⟩ ⟨true, .none, true, false⟩ = .works ∧
+    expected ⟨.dflt, .none, false, .cmd⟩ ⟨true, .none, true, false⟩ = .startErr .protocol := by decide
 
 /-- if Reattach + multiplexing were not refused, the client would go on without multiplexing set up -/
 theorem reattach_mux_witness :
-    compose ⟨true, false⟩ pGood ⟨.both, .none, true, .reattach⟩ ⟨true, .none, true⟩ = .works ∧
-    expected ⟨.both, .none, true, .reattach⟩ ⟨true, .none, true⟩ = .startErr .optionConflict := by decide
+    compose ⟨true, false, true, true, true⟩ pGood ⟨.both, .none, true, .reattach⟩ ⟨true, .none, true, false⟩ = .works ∧
+    expected ⟨.both, .none, true, .reattach⟩ ⟨true, .none, true, false⟩ = .startErr .optionConflict := by decide
 
 /-- if the default allowed list were {netrpc, grpc}, a gRPC plugin would be accepted by a host that
 never opted in: the specification table says protocol error there -/
-example : expected ⟨.dflt, .none, false, .cmd⟩ ⟨true, .none, true⟩ = .startErr .protocol := by decide
-example : compose iGood pGood ⟨.both, .none, false, .cmd⟩ ⟨true, .none, true⟩ = .works := by decide
+example : expected ⟨.dflt, .none, false, .cmd⟩ ⟨true, .none, true, false⟩ = .startErr .protocol := by decide
+example : compose iGood pGood ⟨.both, .none, false, .cmd⟩ ⟨true, .none, true, false⟩ = .works := by decide
+
+/-! ### Never a silently downgraded connection
+
+`Verdict.downgraded` = the host asked for transport security that applies to this launch
+(`hostTls hc ≠ none`: a static `TLSConfig`, or AutoMTLS with a plugin it launches), `Start`
+succeeded, and the first use completes although the bytes on the wire are plaintext.  These
+theorems are about the composition itself — for EVERY value of the other facts, every
+`Handshake.Params` and every configuration pair — and need exactly the two facts
+`autoTlsAtStart` and `dialsUseTlsConfig`. -/
+
+/-- with both facts, what the host's dial paths put on the wire is the mode the host asked for -/
+private theorem dial_is_host_mode (I : Interop.Params) (h1 : I.autoTlsAtStart = true) (h2 : I.dialsUseTlsConfig = true)
+    (hc : HostC) (b : Bool) : dialSec I (hostTlsAfterStart I hc b) = hostTls hc := by
+  unfold dialSec hostTlsAfterStart
+  simp only [h1, h2, if_true, Bool.true_or]
+  cases hostTls hc <;> rfl
+
+private theorem connect_not_downgraded (I : Interop.Params) (h1 : I.autoTlsAtStart = true) (h2 : I.dialsUseTlsConfig = true)
+    (hc : HostC) (pc : PlugC) : connect I hc pc ≠ .downgraded := by
+  unfold connect
+  simp only [dial_is_host_mode I h1 h2]
+  split
+  · split
+    · rename_i h; exact absurd h.2 h.1
+    · simp
+  · simp
+
+private theorem connect_works_eq (I : Interop.Params) (h1 : I.autoTlsAtStart = true) (h2 : I.dialsUseTlsConfig = true)
+    (hc : HostC) (pc : PlugC) (h : connect I hc pc = .works) : hostTls hc = plugTls hc pc := by
+  unfold connect at h
+  simp only [dial_is_host_mode I h1 h2] at h
+  split at h
+  · assumption
+  · simp at h
+
+/-- **Never a silently downgraded connection**: for every configuration pair, whatever the plugin
+answers — in particular when it ignores AutoMTLS and sends no certificate. -/
+theorem never_downgraded_line (I : Interop.Params) (P : Handshake.Params)
+    (h1 : I.autoTlsAtStart = true) (h2 : I.dialsUseTlsConfig = true) (hc : HostC) (pc : PlugC) (legacy : Bool) :
+    composeLine I P hc pc legacy ≠ .downgraded := by
+  unfold composeLine
+  split
+  · simp
+  · split
+    · exact connect_not_downgraded I h1 h2 hc pc
+    · split
+      · exact connect_not_downgraded I h1 h2 hc pc
+      · simp
+      · simp
+      · simp
+
+theorem never_downgraded (I : Interop.Params) (P : Handshake.Params)
+    (h1 : I.autoTlsAtStart = true) (h2 : I.dialsUseTlsConfig = true) (hc : HostC) (pc : PlugC) :
+    compose I P hc pc ≠ .downgraded := never_downgraded_line I P h1 h2 hc pc false
+
+theorem never_downgraded_good (I : Interop.Params) (P : Handshake.Params) (hI : I.Good) (hc : HostC) (pc : PlugC) :
+    compose I P hc pc ≠ .downgraded := never_downgraded I P hI.2.2.1 hI.2.2.2.1 hc pc
+
+/-- **A host that asked for transport security only ever completes a call over a connection secured in
+the mode it asked for**: `works` implies that the plugin's side is in the host's mode. -/
+theorem works_same_security_line (I : Interop.Params) (P : Handshake.Params)
+    (h1 : I.autoTlsAtStart = true) (h2 : I.dialsUseTlsConfig = true) (hc : HostC) (pc : PlugC) (legacy : Bool)
+    (h : composeLine I P hc pc legacy = .works) : hostTls hc = plugTls hc pc := by
+  unfold composeLine at h
+  split at h
+  · simp at h
+  · split at h
+    · exact connect_works_eq I h1 h2 hc pc h
+    · split at h
+      · exact connect_works_eq I h1 h2 hc pc h
+      · simp at h
+      · simp at h
+      · simp at h
+
+theorem works_same_security (I : Interop.Params) (P : Handshake.Params)
+    (h1 : I.autoTlsAtStart = true) (h2 : I.dialsUseTlsConfig = true) (hc : HostC) (pc : PlugC)
+    (h : compose I P hc pc = .works) : hostTls hc = plugTls hc pc := works_same_security_line I P h1 h2 hc pc false h
+
+/-- **An AutoMTLS host never completes a call over a plaintext connection**: if a host with AutoMTLS
+launches a plugin and the first use works, the plugin implements AutoMTLS (it took the host's
+certificate, answered with its own, and serves mutual TLS). -/
+theorem automtls_never_plaintext (I : Interop.Params) (P : Handshake.Params) (hI : I.Good) (hc : HostC) (pc : PlugC)
+    (ha : hc.sec = .auto) (hl : hc.launch ≠ .reattach) (h : compose I P hc pc = .works) :
+    plugTls hc pc = .auto ∧ pc.noAuto = false := by
+  have e := works_same_security I P hI.2.2.1 hI.2.2.2.1 hc pc h
+  have ht : hostTls hc = .auto := by simp [hostTls, ha, hl]
+  rw [ht] at e
+  refine ⟨e.symm, ?_⟩
+  have e' := e.symm
+  unfold plugTls at e'
+  cases hn : pc.noAuto
+  · rfl
+  · cases hs : pc.sec <;> simp [hs, hn] at e'
+
+/-- … and with a plugin that ignores AutoMTLS the mismatch surfaces as an error on first use
+(protocol allowed, multiplexing consistent). -/
+theorem automtls_ignored_fails_first_use (hc : HostC) (pc : PlugC) (ha : hc.sec = .auto) (hl : hc.launch ≠ .reattach)
+    (hn : pc.noAuto = true) (hp : protoAllowed hc pc = true)
+    (hm : hc.mux = true → pc.grpc = true → pc.advMux = true) :
+    compose iGood pGood hc pc = .firstUseErr := by
+  rw [interop]; unfold expected
+  have ht : hostTls hc = .auto := by simp [hostTls, ha, hl]
+  have hpt : plugTls hc pc ≠ .auto := by
+    unfold plugTls; cases hs : pc.sec <;> simp [hn]
+  simp only [hl, if_false, hp, Bool.not_true, Bool.false_eq_true, ht]
+  cases h1 : hc.mux <;> cases h2 : pc.grpc <;> cases h3 : pc.advMux <;> simp_all
+  all_goals (intro h; exact hpt h.symm)
+
+/-! ### Witnesses: both transport-security facts matter -/
+
+/-- `autoTlsAtStart` false (the configuration is only built by `loadServerCert`, i.e. when the line
+carries a certificate): AutoMTLS host, net/rpc plugin that ignores AutoMTLS — `Start` succeeds and the
+call completes in plaintext; the specification says first-use error. -/
+theorem auto_tls_at_start_witness :
+    compose ⟨true, true, false, true, true⟩ pGood ⟨.dflt, .auto, false, .cmd⟩ ⟨false, .none, true, true⟩ = .downgraded ∧
+    expected ⟨.dflt, .auto, false, .cmd⟩ ⟨false, .none, true, true⟩ = .firstUseErr := by decide
+
+/-- the same over gRPC, launched through a custom runner -/
+theorem auto_tls_at_start_witness_grpc :
+    compose ⟨true, true, false, true, true⟩ pGood ⟨.grpcOnly, .auto, true, .runner⟩ ⟨true, .none, true, true⟩ = .downgraded ∧
+    expected ⟨.grpcOnly, .auto, true, .runner⟩ ⟨true, .none, true, true⟩ = .firstUseErr := by decide
+
+/-- … while with that fact false a plugin that does answer AutoMTLS still works: the defect is invisible
+on the diagonal -/
+theorem auto_tls_at_start_invisible_on_diagonal :
+    compose ⟨true, true, false, true, true⟩ pGood ⟨.dflt, .auto, false, .cmd⟩ ⟨false, .none, true, false⟩ = .works := by decide
+
+/-- `dialsUseTlsConfig` false (a dial path that ignores `config.TLSConfig`): a host with a static
+`TLSConfig` talks plaintext to a plaintext plugin without any error -/
+theorem dials_use_tls_witness :
+    compose ⟨true, true, true, false, true⟩ pGood ⟨.both, .static, false, .cmd⟩ ⟨true, .none, true, false⟩ = .downgraded ∧
+    expected ⟨.both, .static, false, .cmd⟩ ⟨true, .none, true, false⟩ = .firstUseErr := by decide
+
+/-! ### The legacy (four-field) handshake line
+
+A plugin built before the protocol field existed prints `CORE|APP|NETWORK|ADDR` and serves net/rpc;
+the host defaults the protocol to net/rpc.  The allowed-protocol list must apply to that default too. -/
+
+/-- **A plugin announcing itself with the legacy line is treated exactly like the net/rpc plugin it is**
+— in every host configuration, with or without a static TLS provider (108 cells, kernel evaluation of
+the byte-level models on the four-field line). -/
+theorem legacy_matrix : ∀ hc ∈ allHost, ∀ s ∈ [PSec.none, .static], composeLegacy iGood pGood hc s = expected hc (legacyPlug s) := by
+  decide
+
+theorem legacy_interop (hc : HostC) (s : PSec) : composeLegacy iGood pGood hc s = expected hc (legacyPlug s) :=
+  legacy_matrix hc (allHost_complete hc) s (by cases s <;> decide)
+
+/-- **The client never speaks a protocol outside its allowed list — also when the protocol was defaulted**:
+a host that allows only gRPC refuses the legacy plugin at start, with the protocol error. -/
+theorem legacy_refused_by_grpc_only (hc : HostC) (s : PSec) (hl : hc.launch ≠ .reattach) (ha : hc.allowed = .grpcOnly) :
+    composeLegacy iGood pGood hc s = .startErr .protocol := by
+  rw [legacy_interop]; simp [expected, hl, protoAllowed, ha, legacyPlug]
+
+theorem legacy_works_protocol_allowed (hc : HostC) (s : PSec) (hl : hc.launch ≠ .reattach)
+    (h : composeLegacy iGood pGood hc s = .works) : hc.allowed ≠ .grpcOnly := by
+  intro ha
+  rw [legacy_refused_by_grpc_only hc s hl ha] at h
+  simp at h
+
+theorem legacy_never_broken_or_downgraded (hc : HostC) (s : PSec) :
+    composeLegacy iGood pGood hc s ≠ .broken ∧ composeLegacy iGood pGood hc s ≠ .downgraded := by
+  refine ⟨?_, never_downgraded_line iGood pGood rfl rfl hc (legacyPlug s) true⟩
+  rw [legacy_interop]; unfold expected
+  split <;> (try split) <;> (try split) <;> (try split) <;> simp
+
+/-- `allowedCheckCoversDefault` false (the check sits inside `if len(parts) >= 5`): a gRPC-only host starts
+the legacy plugin and speaks net/rpc to it -/
+theorem allowed_check_default_witness :
+    composeLegacy ⟨true, true, true, true, false⟩ pGood ⟨.grpcOnly, .none, false, .cmd⟩ .none = .works ∧
+    expected ⟨.grpcOnly, .none, false, .cmd⟩ (legacyPlug .none) = .startErr .protocol := by decide
+
+/-- … while every plugin that prints the protocol field is unaffected by that fact: the defect is
+invisible in the 864-cell matrix -/
+theorem allowed_check_default_invisible_in_matrix :
+    ∀ hc ∈ allHost, ∀ pc ∈ allPlug, compose ⟨true, true, true, true, false⟩ pGood hc pc = expected hc pc := by
+  decide
+
+example : composeLegacy iGood pGood ⟨.dflt, .none, false, .cmd⟩ .none = .works := by decide
+example : composeLegacy iGood pGood ⟨.grpcOnly, .none, false, .cmd⟩ .none = .startErr .protocol := by decide
+example : compose iGood pGood ⟨.dflt, .auto, false, .cmd⟩ ⟨false, .none, true, true⟩ = .firstUseErr := by decide
+example : compose iGood pGood ⟨.dflt, .auto, false, .cmd⟩ ⟨false, .none, true, false⟩ = .works := by decide
+example : ∃ hc pc, hc.sec = .auto ∧ hc.launch ≠ .reattach ∧ compose iGood pGood hc pc = .works :=
+  ⟨⟨.dflt, .auto, false, .cmd⟩, ⟨false, .none, true, false⟩, by decide⟩
 
 end GoPlugin.Props.C14
